@@ -120,6 +120,9 @@ func runChild(self string, sp childSpec) (lifeObs, []childEvent) {
 	cmd := exec.Command(self, "child", string(arg))
 	var so, se bytes.Buffer
 	cmd.Stdout, cmd.Stderr = &so, &se
+	// a child does a few milliseconds of work: keep the Go runtime small (fewer threads, no collector) so that
+	// sixteen of them side by side do not fight for the machine
+	cmd.Env = append(os.Environ(), "GOMAXPROCS=2", "GOGC=off")
 	err := cmd.Run()
 	lo := lifeObs{}
 	if err != nil {
